@@ -17,7 +17,7 @@ from vf.core import CaseResult, Ctx, Violation, hyp_run, exc_sig
 
 PROP_ID = 'C23'
 LEVEL = 'exploration'
-BUDGET = {'quick': 24000, 'thorough': 1200000}
+BUDGET = {'quick': 24000, 'thorough': 800000}
 RULE = (
     'Hypothesis draws one of three case kinds. "tokens" (70%): a gap-free '
     'token combination (absolute ~user/workflow//cycle/task/job, partial, or '
@@ -656,3 +656,7 @@ def run_shard(ctx: Ctx):
     import logging
     logging.getLogger('cylc').setLevel(logging.CRITICAL)
     hyp_run(ctx, cases(), check_case, ctx.share(BUDGET[ctx.tier]))
+    if ctx.tier == 'thorough' and ctx.shard == 0:
+        # second driver (same oracle); never decides the property by itself
+        from vf.gen import idname_atheris
+        idname_atheris.run(ctx, PROP_ID)
